@@ -99,6 +99,11 @@ def run(ctx):
     its = items(ctx)
     ctx.log("Act M (size contract): Compact layout model")
     ctx.add_mc(tlc.model_check("MC_Compact", "MC_Compact_q.cfg" if ctx.quick else "MC_Compact_t.cfg", workers=8))
+    # the same size contract for ALL lengths and windows: tlapm discharges LayoutProofs.tla (Layout.tla is checked
+    # against Compact.tla by the invariant LayoutAgrees above); noted, not required, when tlapm is unavailable
+    from harness import tlaps
+    ctx.extra["unbounded_proofs"] = tlaps.layout_proofs()
+    ctx.log("tlapm LayoutProofs.tla: %s" % ctx.extra["unbounded_proofs"])
     ctx.log("running %d configurations under ASan+UBSan" % len(its))
     calls, fails = asanrun.run(its)
     ctx.evaluations = calls
